@@ -22,6 +22,7 @@
 #include <assert.h>
 #include <ctype.h>
 #include <errno.h>
+#include <limits.h>
 #include <stdbool.h>
 #include <stdio.h>
 #include <stdlib.h>
@@ -673,6 +674,16 @@ int _vnadata_load_npd(vnadata_internal_t *vdip, FILE *fp, const char *filename)
 	_vnadata_error(vdip, VNAERR_SYNTAX, "%s (line %d) error: "
 		"required keyword #:parameters missing",
 		nss.nss_filename, nss.nss_line);
+	goto out;
+    }
+
+    /*
+     * The number of fields of a matrix is 2 * ports * ports.
+     */
+    if (ports > 0 && ports > INT_MAX / 2 / ports) {
+	_vnadata_error(vdip, VNAERR_SYNTAX, "%s (line %d) error: "
+		"number of ports is too large: %d",
+		nss.nss_filename, nss.nss_line, ports);
 	goto out;
     }
 
